@@ -6,7 +6,7 @@ import random
 from . import common, gen, execgen, c01, c08, sched
 from .c04 import fresh_schema_name
 
-C09_FILES = ["Properties/C09.v", "Proofs/AsyncProofs.v"]
+C09_FILES = ["Properties/C09.v", "Proofs/AsyncProofs.v", "Proofs/SerialChain.v"]
 
 
 def root_keys(ast, opname=None):
